@@ -98,6 +98,8 @@ func c10(c *Ctx) {
 	} else {
 		c10makeAppend(c, suppressPkg, "pkg/util/cpuset", "pkg/koordlet/qosmanager/helpers")
 	}
+	c10alwaysApply(c)
+	c10parse(c)
 }
 
 // c10progress: each selection loop of calculateBESuppressCPUSetPolicy starts with a fresh no-progress marker.
@@ -709,4 +711,92 @@ func c10quota(c *Ctx, fn *ssa.Function) {
 	without := an.ForwardReach(src, isMax)
 	r.Check(with[sink] && !without[sink], "FLOW", key, c.Pos(fn.Pos()), "budget reaches the written quota, and only through max(., beMinQuota)",
 		sprintf("budget reaches written quota: %v; reaches it bypassing max(., beMinQuota): %v", with[sink], without[sink]))
+}
+
+// c10alwaysApply: a round that got as far as the candidate pools always rewrites the BE cpuset.
+func c10alwaysApply(c *Ctx) {
+	r := c.R
+	r.Rule("PATH(always applied): in adjustByCPUSet, with every read succeeding, the topology present and at least one eligible CPU, no return is reachable without applyBESuppressCPUSet (the set of protected CPUs can change while the number of BE CPUs stays the same, so 'same size' is no reason to skip the round)")
+	fn := c.Fn(suppressPkg, "CPUSuppress", "adjustByCPUSet")
+	if fn == nil {
+		return
+	}
+	f := an.Facts{}
+	for _, b := range fn.Blocks {
+		for _, in := range b.Instrs {
+			switch x := in.(type) {
+			case *ssa.Extract:
+				if isErrorType(x.Type()) {
+					f[x] = an.Nil
+				}
+			case *ssa.Call:
+				if isErrorType(x.Type()) {
+					if an.ShortCallee(&x.Call) != "applyBESuppressCPUSet" {
+						f[x] = an.Nil
+					}
+				}
+			case *ssa.BinOp:
+				// fetched objects are present; at least one eligible CPU
+				if (x.Op == token.EQL || x.Op == token.NEQ) && an.IsNilConst(x.Y) {
+					if call, _ := an.ResultOfCall(x.X); call != nil && !isErrorType(x.X.Type()) {
+						if x.Op == token.EQL {
+							f[x] = an.False
+						} else {
+							f[x] = an.True
+						}
+					}
+				}
+				if k, isC := constIntOf(x.Y); isC && k == 0 && x.Op == token.EQL {
+					if sum, ok := x.X.(*ssa.BinOp); ok && sum.Op == token.ADD {
+						l1, ok1 := sum.X.(*ssa.Call)
+						l2, ok2 := sum.Y.(*ssa.Call)
+						if ok1 && ok2 && an.IsBuiltinCall(l1, "len") && an.IsBuiltinCall(l2, "len") {
+							f[x] = an.False
+						}
+					}
+				}
+			}
+		}
+	}
+	reach := an.Explore(fn, nil, f, func(in ssa.Instruction) bool {
+		cl, ok := in.(ssa.CallInstruction)
+		return ok && an.ShortCallee(cl.Common()) == "applyBESuppressCPUSet"
+	})
+	var bad []string
+	for _, ret := range reach.Returns() {
+		bad = append(bad, c.InstrPos(ret))
+	}
+	r.Check(len(f) >= 4 && len(bad) == 0, "PATH", fkey(fn)+"/always-applied", c.Pos(fn.Pos()), "every complete round applies the BE cpuset", "a round with all inputs available can return without applyBESuppressCPUSet (at "+strings.Join(bad, ",")+"): BE stays on CPUs that became protected (LSE pod, reservation, system QoS) since the last round")
+}
+
+// c10parse: the cpuset parser accepts every non-reversed range, including the single-CPU range "n-n".
+func c10parse(c *Ctx) {
+	r := c.R
+	r.Rule("PATH(parser boundary): in cpuset.Parse no error return is guarded by a comparison of the two bounds of a range that holds when they are equal (start >= end, end <= start, start == end): \"3-3\" is a valid one-CPU range, and every caller treats a parse error as 'no protected CPUs'")
+	fn := c.Fn("pkg/util/cpuset", "", "Parse")
+	if fn == nil {
+		return
+	}
+	isBound := func(v ssa.Value) bool {
+		call, idx := an.ResultOfCall(v)
+		return call != nil && idx == 0 && strings.HasPrefix(an.CalleeName(&call.Call), "strconv.")
+	}
+	bad := ""
+	n := 0
+	for _, alt := range an.ReturnAlts(fn) {
+		if len(alt.Results) != 2 || an.IsNilConst(alt.Results[1]) {
+			continue
+		}
+		n++
+		for _, g := range alt.Guards {
+			rel, ok := an.RelOf(g)
+			if !ok || !isBound(rel.X) || !isBound(rel.Y) || rel.X == rel.Y {
+				continue
+			}
+			if rel.Op == token.GEQ || rel.Op == token.LEQ || rel.Op == token.EQL {
+				bad = c.InstrPos(alt.Ret)
+			}
+		}
+	}
+	r.Check(bad == "" && n >= 3, "PATH", fkey(fn)+"/single-cpu-range-accepted", c.Pos(fn.Pos()), "no error for equal bounds", "an error return at "+bad+" is taken when the two bounds of a range are equal: a single-CPU range such as 3-3 makes the whole list unparsable")
 }
